@@ -216,8 +216,10 @@ def tlc_mc(module, cfgfile, tag, workers=8, timeout=3600, extra=(), heap="-Xmx12
     violated = ("is violated" in out) or ("Invariant" in out and "violated" in out) or ("Deadlock reached" in out) \
         or ("Temporal properties were violated" in out)
     actions = {}
-    for name, mod, gen, dist in RE_COV_ACTION.findall(out):
-        actions[name] = actions.get(name, 0) + int(gen)
+    # coverage lines read `<Action ...>: <distinct states found>:<states generated>`; an action was
+    # taken iff it generated states (the first number can be 0 when another action found them first)
+    for name, mod, found, generated in RE_COV_ACTION.findall(out):
+        actions[name] = actions.get(name, 0) + int(generated)
     if not ok and not violated:
         raise ToolError("TLC error in %s:\n%s" % (cfgfile, out[-3000:]))
     return dict(ok=ok, states=states, distinct=distinct, out=out, actions=actions, wall=time.time() - t0)
